@@ -213,4 +213,56 @@ def sarRoundSmulwwC (a b : Int) (bits : Nat) : Int := rshiftRound (smulww a b) b
 /-- the 64-bit form before the fix: `t = (int64)a*b; bits += 16; t += 1 << (bits-1); return t >> bits`. -/
 def sarRoundSmulww64 (a b : Int) (bits : Nat) : Int := (wrap32 a * wrap32 b + 2 ^ (bits + 15)) / 2 ^ (bits + 16)
 
+/-! ## (viii) the lane helpers of silk/x86/NSQ_del_dec_avx2.c (lines 125-190, 236-241) and the C macros they stand for
+
+  One 32-bit lane each; operands are 32-bit values.  A sign-bit test `(x & 0x80000000) != 0` / `_mm_srai_epi32(x,31)` is
+  written `x < 0`; the sign bit of `p ^ q` is "p and q have different signs", of `p & q` "both negative", of `p | q`
+  "one negative". -/
+
+/-- silk_ADD_SAT32 (macros.h:99-101). -/
+def addSat32C (a b : Int) : Int :=
+  if wrap32 (a + b) ≥ 0 then (if a < 0 ∧ b < 0 then -2147483648 else a + b)
+  else (if ¬ (a < 0 ∨ b < 0) then 2147483647 else a + b)
+/-- silk_mm_add_sat_epi32 (NSQ_del_dec_avx2.c:132-138): `r = a+b; OF = (a^r)&(b^r); SAT = (a>>>31) + 0x7FFFFFFF;
+    blendv(r, SAT, OF>>31)`. -/
+def addSatLane (a b : Int) : Int :=
+  let r := wrap32 (a + b)
+  let ovf := (decide (a < 0) != decide (r < 0)) && (decide (b < 0) != decide (r < 0))
+  let sat := wrap32 ((if a < 0 then 1 else 0) + 2147483647)
+  if ovf then sat else r
+
+/-- silk_SUB_SAT32 (macros.h:103-105). -/
+def subSat32C (a b : Int) : Int :=
+  if wrap32 (a - b) ≥ 0 then (if a < 0 ∧ ¬ (b < 0) then -2147483648 else a - b)
+  else (if ¬ (a < 0) ∧ b < 0 then 2147483647 else a - b)
+/-- silk_mm_sub_sat_epi32 (NSQ_del_dec_avx2.c:139-145): `OF = ~(b^r) & (a^r)`. -/
+def subSatLane (a b : Int) : Int :=
+  let r := wrap32 (a - b)
+  let ovf := (decide (b < 0) == decide (r < 0)) && (decide (a < 0) != decide (r < 0))
+  let sat := wrap32 ((if a < 0 then 1 else 0) + 2147483647)
+  if ovf then sat else r
+
+/-- silk_mm_limit_epi32 (NSQ_del_dec_avx2.c:154-162): `min` with the larger limit, then `max` with the smaller. -/
+def limitLane (num l1 l2 : Int) : Int :=
+  let lo := if l1 < l2 then l1 else l2
+  let hi := if l1 > l2 then l1 else l2
+  let n := if num < hi then num else hi
+  if n > lo then n else lo
+
+/-- silk_mm_smulww_epi32 (:172-175): `cvtepi32_epi64`, `_mm256_mul_epi32`, `<< 16`, high dwords. -/
+def smulwwLaneAvx2 (a b : Int) : Int :=
+  let p := (wrap32 a * wrap32 b) % 18446744073709551616
+  (p * 65536 % 18446744073709551616) / 4294967296
+/-- silk_mm_smulwb_epi32 (:178-181): multiply by `(uint32)b << 16`, high dwords. -/
+def smulwbLaneAvx2 (a b : Int) : Int :=
+  let p := (wrap32 a * wrap32 (b * 65536)) % 18446744073709551616
+  p / 4294967296
+
+/-- silk_mm_srai_round_epi32 (:125-129): `(a + (1 << (bits-1))) >> bits` with a wrapping add. -/
+def sraiRoundLane (a : Int) (bits : Nat) : Int := wrap32 (a + 2 ^ (bits - 1)) / 2 ^ bits
+
+/-- silk_RAND (SigProc_FIX.h:601) and silk_mm256_rand_epi32 (:236-241). -/
+def randC (seed : Int) : Int := wrap32 (907633515 + seed * 196314165)
+def randLane (seed : Int) : Int := wrap32 (wrap32 (seed * 196314165) + 907633515)
+
 end Opus.Kernels
